@@ -400,6 +400,13 @@ def race_rejection(run, comp, report, validator="go-race-detector"):
                                full_segment=[], offset=0, plan=None, clauses=[], label="race", fact=True, comp=comp, cls=fn))
 
 
+def crash_rejection(run, comp, msg, plan):
+    """The driver process died inside the code under test (Go fatal error: stack overflow, deadlock, unlock of an unlocked
+    mutex ...) while executing this plan: a fact about an execution that happened."""
+    run.rejections.append(dict(validator="driver", subdir="", constants={}, clause="NoCrash", segment=[{"op": "crash", "msg": msg[:300]}],
+                               full_segment=[], offset=0, plan=plan, clauses=[], label="crash", fact=True, comp=comp, cls=msg[:60]))
+
+
 def run_driver(run, comp, plan_lines, race=False, timeout=1800, args=(), allow_fail=False):
     """Feed ndjson plan lines to `driver <comp>`; returns list of trace events (dicts)."""
     drv = build_driver(run, race=race)
